@@ -7,6 +7,8 @@
   with or without default), every position of the rewrite inside the text, every
   separator run.  Number conversion (`boost::spirit::qi`) is the parameter `cv`.
 -/
+import OpmVerif.Proofs.DeckRelayout
+import OpmVerif.Proofs.TokCheck
 import OpmVerif.Proofs.Lex
 import OpmVerif.Proofs.LexSafe
 import OpmVerif.Proofs.Tok
@@ -330,5 +332,185 @@ example : Relayout demoSchema (b " 'W 1' 2*5 ") (b " 'W 1'\n\t5 5  1* 1*") := by
 example : parseRecord demoConv demoSchema (b " 'W 1' 2*5 ") =
     some [[(.str (b "W 1"), .deck)], [(.int 5, .deck)], [(.int 5, .deck)], [(.int 9, .dflt)],
           [(.str (b "OPEN"), .dflt)], [(.dummy, .empty)], []] := by decide +kernel
+
+
+/-! ### second round: whole texts, arbitrary prefixes, deck-level closure -/
+
+section deck_level
+open OpmVerif.Deck OpmVerif.DeckWrite
+
+/-- more rounds of the keyword loop never change a result (the fuel of the model is not
+what decides). -/
+theorem rounds_irrelevant (cv : Conv) (tbl : Table) (recog : Bytes → Bool)
+    (files : List (Bytes × Bytes) → Bytes → Option Bytes) (f g : Nat) (hfg : f ≤ g)
+    (al : List (Bytes × Bytes)) (deck : DeckT) (lines : List Bytes) (r : DeckT)
+    (h : parseLoop cv tbl recog files f al deck lines = some r) :
+    parseLoop cv tbl recog files g al deck lines = some r :=
+  parseLoop_fuel_le cv tbl recog files f g hfg al deck lines r h
+
+/-- the written text of any conforming deck (every size class, TITLE) is a prefix that ends
+at a keyword boundary: whatever text follows, the keyword loop consumes it as whole keywords.
+Such prefixes compose (`atBoundary_append`) and may be interleaved with blank and comment
+lines (`atBoundary_blank`). -/
+theorem written_prefix_at_boundary (cv : Conv) (tbl : Table) (recog : Bytes → Bool)
+    (files : List (Bytes × Bytes) → Bytes → Option Bytes) (fmt : Bytes → Bytes) (flush : Bool)
+    (al : List (Bytes × Bytes)) (deck : DeckT) (ks : List DK) (h : Conforms cv fmt flush tbl recog deck ks) :
+    AtBoundary cv tbl recog files ks.length al deck (deckText fmt flush ks) al (deck ++ ks.map (DK.result fmt)) :=
+  atBoundary_written cv tbl recog files fmt flush al deck ks h
+
+/-- **`include_splice` as a whole-text statement**: behind ANY prefix text that ends at a
+keyword boundary and in front of ANY text, `INCLUDE` / `'path' /` is the cleaned lines of the
+named file, followed by the end-of-file marker of the model, spliced in front of the lines of
+the text that follows. -/
+theorem include_splice_text (cv : Conv) (tbl : Table) (recog : Bytes → Bool)
+    (files : List (Bytes × Bytes) → Bytes → Option Bytes) (htbl : lookup tbl nameINCLUDE = some includeDef)
+    (n : Nat) (al al' : List (Bytes × Bytes)) (deck deck' : DeckT) (P : Bytes)
+    (hP : AtBoundary cv tbl recog files n al deck P al' deck')
+    (path content : Bytes) (hfile : files al' path = some content)
+    (hq : ∀ c ∈ path, c ≠ 39) (hsafe : LineSafe (quoted path)) (hnl : NoNL (quoted path))
+    (fuel : Nat) (R : Bytes) :
+    parseLoop cv tbl recog files (fuel + 1 + n) al deck (linesOf (P ++ (includeText path ++ R))) =
+      parseLoop cv tbl recog files fuel al' deck' (linesOf (content ++ [10]) ++ eofMark :: linesOf R) :=
+  OpmVerif.Deck.include_splice_text cv tbl recog files htbl n al al' deck deck' P hP path content hfile hq hsafe hnl fuel R
+
+/-- **INCLUDE against the content written in place, any content**: if the text with the
+INCLUDE parses to a deck, the text with the file's content in its place parses to the same
+deck (ENDINC not among the keywords).  The end-of-file marker is transparent
+(`marker_transparent`) except that a record running past the end of the file is an error
+with the INCLUDE (fix d37f2f297) — which is why the converse needs the content to end at a
+keyword boundary (rule `incl` of `RelayoutDeck`). -/
+theorem include_inline (cv : Conv) (tbl : Table) (recog : Bytes → Bool)
+    (files : List (Bytes × Bytes) → Bytes → Option Bytes)
+    (hnoendinc : lookup tbl nameENDINC = none) (htbl : lookup tbl nameINCLUDE = some includeDef)
+    (n : Nat) (al' : List (Bytes × Bytes)) (deck' : DeckT) (P : Bytes)
+    (hP : AtBoundary cv tbl recog files n [] [] P al' deck')
+    (path content : Bytes) (hfile : files al' path = some content)
+    (hq : ∀ c ∈ path, c ≠ 39) (hsafe : LineSafe (quoted path)) (hnl : NoNL (quoted path)) (R : Bytes) (r : DeckT)
+    (h : ParsesText cv tbl recog files (P ++ (includeText path ++ R)) r) :
+    ParsesText cv tbl recog files (P ++ (content ++ 10 :: R)) r :=
+  OpmVerif.Deck.include_inline cv tbl recog files hnoendinc htbl n al' deck' P hP path content hfile hq hsafe hnl R r h
+
+/-- **`relayout_deck`** (partial) — `RelayoutDeck` is the closure (reflexive, symmetric,
+transitive, in any context) of the deck-level rewrites: a line replaced by one with the same
+cleaned content (comments, outer blanks/tabs, blank ↔ comment-only line; anywhere), a blank or
+comment line inserted at a keyword boundary, the keyword line in another case / with text
+behind the name, a run of whole keywords moved into an INCLUDE file.  Every derivation leaves
+what `Parser::parseString` returns unchanged: the same Deck, or no Deck on either side.
+
+Full shape, not proved here: the same closure with the record-internal rules (separator runs
+and line breaks between items, text after the slash, star contraction/expansion, early
+record end) at any place of a deck.  Those are proved for one record in every composition
+(`relayout_compose`), and for the line loop of a keyword (`assemble_linebreak`,
+`blank_line_inside_keyword`, `after_slash_ignored`); lifting them needs a bisimulation
+between raw keywords that differ in the spelling of one record. -/
+theorem relayout_deck_partial (cv : Conv) (tbl : Table) (recog : Bytes → Bool)
+    (files : List (Bytes × Bytes) → Bytes → Option Bytes) {t u : Bytes}
+    (h : RelayoutDeck cv tbl recog files t u) (r : DeckT) :
+    ParsesText cv tbl recog files t r ↔ ParsesText cv tbl recog files u r :=
+  OpmVerif.Deck.relayout_deck_partial cv tbl recog files h r
+
+/-! non-vacuity: a derivation with all four rules on a small deck -/
+
+def oilKw : DK := .kw ⟨b "OIL", false, false, []⟩
+
+theorem oil_conforms (deck : DeckT) : Conforms demoConv idFmt true demoTable (fun _ => false) deck [oilKw] := by
+  refine ⟨?_, trivial⟩
+  refine ⟨⟨⟨.fixed 0, false, none, [], false, false⟩, _, ?_, rfl, rfl, rfl, Or.inl ⟨rfl, rfl, rfl⟩, ?_⟩⟩
+  · exact ⟨by decide +kernel, by decide +kernel, by decide +kernel, by decide +kernel, by decide +kernel,
+      by decide +kernel, by decide +kernel, by decide +kernel, by decide +kernel, by decide +kernel,
+      by decide +kernel, by decide +kernel, by decide +kernel, by decide +kernel⟩
+  · intro j r hj
+    simp [oilKw] at hj
+
+example : deckText idFmt true [oilKw] = b "OIL\n" := by decide +kernel
+
+def incFiles (_ : List (Bytes × Bytes)) (p : Bytes) : Option Bytes := if p = b "/d/oil.inc" then some (b "OIL") else none
+
+/-- `OIL\nOIL\nOIL\n` ~ `OIL -- first\n  \t\noil  again\nINCLUDE\n '/d/oil.inc' /\n`: the last keyword
+moved into a file (`incl`, backwards), a whitespace-only line at a keyword boundary (`blank`), keyword
+case and trailing text (`kwname`), a comment (`line`) — composed by `trans`. -/
+example : RelayoutDeck demoConv demoTable (fun _ => false) incFiles
+    (b "OIL\nOIL\nOIL\n") (b "OIL -- first\n  \t\noil  again\nINCLUDE\n '/d/oil.inc' /\n") := by
+  have hB1 : AtBoundary demoConv demoTable (fun _ => false) incFiles 1 [] [] (b "OIL\n") [] [⟨b "OIL", []⟩] := by
+    have := atBoundary_written demoConv demoTable (fun _ => false) incFiles idFmt true [] [] [oilKw] (oil_conforms [])
+    have e : deckText idFmt true [oilKw] = b "OIL\n" := by decide +kernel
+    rw [e] at this
+    exact this
+  have hB2 : AtBoundary demoConv demoTable (fun _ => false) incFiles 1 [] [⟨b "OIL", []⟩] (b "OIL\n") []
+      [⟨b "OIL", []⟩, ⟨b "OIL", []⟩] := by
+    have := atBoundary_written demoConv demoTable (fun _ => false) incFiles idFmt true [] [⟨b "OIL", []⟩] [oilKw] (oil_conforms _)
+    have e : deckText idFmt true [oilKw] = b "OIL\n" := by decide +kernel
+    rw [e] at this
+    exact this
+  have hB12 : AtBoundary demoConv demoTable (fun _ => false) incFiles (1 + 1) [] [] (b "OIL\n" ++ b "OIL\n") []
+      [⟨b "OIL", []⟩, ⟨b "OIL", []⟩] :=
+    atBoundary_append demoConv demoTable (fun _ => false) incFiles hB1 hB2
+  have hB1b : AtBoundary demoConv demoTable (fun _ => false) incFiles (1 + 1) [] [] (b "OIL\n" ++ (b "  \t" ++ [10])) []
+      [⟨b "OIL", []⟩] :=
+    atBoundary_append demoConv demoTable (fun _ => false) incFiles hB1
+      (atBoundary_blank demoConv demoTable (fun _ => false) incFiles [] _ (b "  \t") (by decide +kernel) (by decide +kernel))
+  -- the lines of the file are the lines of a written keyword
+  have hfile : AtBoundaryL demoConv demoTable (fun _ => false) incFiles 1 [] [⟨b "OIL", []⟩, ⟨b "OIL", []⟩]
+      (linesOf (b "OIL" ++ [10])) [] ([⟨b "OIL", []⟩, ⟨b "OIL", []⟩] ++ [oilKw].map (DK.result idFmt)) := by
+    have := atBoundaryL_written demoConv demoTable (fun _ => false) incFiles idFmt true [] [⟨b "OIL", []⟩, ⟨b "OIL", []⟩]
+      [oilKw] (oil_conforms _)
+    have e : deckLines idFmt true [oilKw] = linesOf (b "OIL" ++ [10]) := by decide +kernel
+    rw [e] at this
+    exact this
+  have hpath := lineSafe_of_B (t := quoted (b "/d/oil.inc")) (by decide +kernel)
+  -- 1. the third keyword moved into the file
+  have s1 : RelayoutDeck demoConv demoTable (fun _ => false) incFiles
+      ((b "OIL\n" ++ b "OIL\n") ++ (includeText (b "/d/oil.inc") ++ [])) ((b "OIL\n" ++ b "OIL\n") ++ (b "OIL" ++ 10 :: [])) :=
+    RelayoutDeck.incl (1 + 1) 1 [] [] _ _ (b "OIL\n" ++ b "OIL\n") (b "/d/oil.inc") (b "OIL") [] hB12
+      (by decide +kernel) (by decide +kernel) (by decide +kernel) hpath.1 hpath.2 hfile
+  -- 2. a whitespace-only line behind the first keyword
+  have s2 : RelayoutDeck demoConv demoTable (fun _ => false) incFiles
+      (b "OIL\n" ++ b "OIL\nINCLUDE\n '/d/oil.inc' /\n") (b "OIL\n" ++ (b "  \t" ++ 10 :: b "OIL\nINCLUDE\n '/d/oil.inc' /\n")) :=
+    RelayoutDeck.blank 1 [] [⟨b "OIL", []⟩] (b "OIL\n") (b "  \t") _ hB1 (by decide +kernel) (by decide +kernel)
+  -- 3. the second keyword in lower case with text behind it
+  have s3 : RelayoutDeck demoConv demoTable (fun _ => false) incFiles
+      ((b "OIL\n" ++ (b "  \t" ++ [10])) ++ (b "OIL" ++ 10 :: b "INCLUDE\n '/d/oil.inc' /\n"))
+      ((b "OIL\n" ++ (b "  \t" ++ [10])) ++ (b "oil  again" ++ 10 :: b "INCLUDE\n '/d/oil.inc' /\n")) :=
+    RelayoutDeck.kwname (1 + 1) [] [⟨b "OIL", []⟩] _ (b "OIL") (b "oil  again") _ hB1b
+      (by decide +kernel) (by decide +kernel) (by decide +kernel) (by decide +kernel) (by decide +kernel)
+  -- 4. a comment behind the first keyword
+  have s4 : RelayoutDeck demoConv demoTable (fun _ => false) incFiles
+      ([] ++ (b "OIL" ++ 10 :: b "  \t\noil  again\nINCLUDE\n '/d/oil.inc' /\n"))
+      ([] ++ (b "OIL -- first" ++ 10 :: b "  \t\noil  again\nINCLUDE\n '/d/oil.inc' /\n")) :=
+    RelayoutDeck.line [] (b "OIL") (b "OIL -- first") _ (Or.inl rfl) (by decide +kernel) (by decide +kernel) (by decide +kernel)
+  have e0 : b "OIL\nOIL\nOIL\n" = (b "OIL\n" ++ b "OIL\n") ++ (b "OIL" ++ 10 :: []) := by decide +kernel
+  have e1 : (b "OIL\n" ++ b "OIL\n") ++ (includeText (b "/d/oil.inc") ++ []) = b "OIL\n" ++ b "OIL\nINCLUDE\n '/d/oil.inc' /\n" := by
+    decide +kernel
+  have e2 : b "OIL\n" ++ (b "  \t" ++ 10 :: b "OIL\nINCLUDE\n '/d/oil.inc' /\n") =
+      (b "OIL\n" ++ (b "  \t" ++ [10])) ++ (b "OIL" ++ 10 :: b "INCLUDE\n '/d/oil.inc' /\n") := by decide +kernel
+  have e3 : (b "OIL\n" ++ (b "  \t" ++ [10])) ++ (b "oil  again" ++ 10 :: b "INCLUDE\n '/d/oil.inc' /\n") =
+      [] ++ (b "OIL" ++ 10 :: b "  \t\noil  again\nINCLUDE\n '/d/oil.inc' /\n") := by decide +kernel
+  have e4 : [] ++ (b "OIL -- first" ++ 10 :: b "  \t\noil  again\nINCLUDE\n '/d/oil.inc' /\n") =
+      b "OIL -- first\n  \t\noil  again\nINCLUDE\n '/d/oil.inc' /\n" := by decide +kernel
+  rw [e0, ← e4]
+  refine RelayoutDeck.trans (RelayoutDeck.symm s1) ?_
+  rw [e1]
+  refine RelayoutDeck.trans s2 ?_
+  rw [e2]
+  refine RelayoutDeck.trans s3 ?_
+  rw [e3]
+  exact s4
+
+/-- … and both texts indeed parse to the same deck of three `OIL`. -/
+example : parseDeckText demoConv demoTable (fun _ => false) incFiles 20 (b "OIL\nOIL\nOIL\n") =
+    parseDeckText demoConv demoTable (fun _ => false) incFiles 20
+      (b "OIL -- first\n  \t\noil  again\nINCLUDE\n '/d/oil.inc' /\n") ∧
+    (parseDeckText demoConv demoTable (fun _ => false) incFiles 20 (b "OIL\nOIL\nOIL\n")).map (·.map (·.name)) =
+      some [b "OIL", b "OIL", b "OIL"] := by decide +kernel
+
+/-- a record that runs past the end of an included file: an error with the INCLUDE (the C++
+throws "Input file ended inside a record." since d37f2f297), a deck with the content in place. -/
+example : parseDeckText demoConv demoTable (fun _ => false)
+      (fun _ p => if p = b "/d/dim.inc" then some (b "DIMENS\n 10 10") else none) 20
+      (b "INCLUDE\n '/d/dim.inc' /\n 3 /\n") = none ∧
+    (parseDeckText demoConv demoTable (fun _ => false) (fun _ _ => none) 20 (b "DIMENS\n 10 10\n 3 /\n")).isSome = true := by
+  decide +kernel
+
+end deck_level
 
 end OpmVerif.Props.C01
